@@ -254,7 +254,16 @@ def present(elems, kind):
 # ---------------------------------------------------------------- implementation side
 class _Run:
     def __init__(self, case):
-        self.prog, self.hist = case
+        self.prog, self.hist = case[0], case[1]
+        # optional clock: (tenths, start): batch duration tenths/10 s, tick k happens at start + d + d + ... (k times,
+        # accumulated in floating point, e.g. 0.7999999999999999); the history then lists the tick NUMBERS
+        self.clock = case[2] if len(case) > 2 else None
+        self.ftime = {}
+        if self.clock:
+            d, t = self.clock[0] / 10.0, float(self.clock[1])
+            for k in range(1, 200):
+                t += d
+                self.ftime[k] = t
         self.events = []
         self.sink_nodes = {}
         self.dirs = {}
@@ -262,6 +271,18 @@ class _Run:
         self.final = False
         self.tnow = 0
         self.exact = set()
+
+    def tick_of(self, x):
+        """The tick number a time value stands for (identity for the integral clock; for the fractional clock
+        the nearest grid point, so that a time merely re-aligned to the grid still names its own interval)."""
+        if not self.clock:
+            return int(x) if x == int(x) else x
+        if x == 0:
+            return 0
+        return int(round((x - self.clock[1]) / (self.clock[0] / 10.0)))
+
+    def now_time(self):
+        return self.ftime[self.tnow] if self.clock else self.tnow
 
     def index_of(self, ssc, d):
         for i, x in enumerate(ssc._dstreams):
@@ -348,7 +369,7 @@ class _Run:
 
     def _sink(self, cell, stop_ssc=None, sig=0):
         def record(t, rdd):
-            self.events.append((2, cell[0], int(t), None if rdd is None else
+            self.events.append((2, cell[0], self.tick_of(t), None if rdd is None else
                                 (exact_contents if cell[0] in self.exact else canon_contents)(rdd.collect())))
             if stop_ssc is not None and self.final:
                 stop_ssc.stop()      # "stop once enough data has been seen", from inside the output action
@@ -357,16 +378,16 @@ class _Run:
         # (for those the time is the harness's own tick time)
         if sig == 1:
             def action(rdd, *, tag=None):
-                record(self.tnow, rdd)
+                record(self.now_time(), rdd)
         elif sig == 2:
             def action(rdd, *more):
                 assert not more
-                record(self.tnow, rdd)
+                record(self.now_time(), rdd)
         elif sig == 3:
             def action(rdd, **kw):
-                record(self.tnow, rdd)
+                record(self.now_time(), rdd)
         elif sig == 4:
-            action = lambda rdd: record(self.tnow, rdd)      # noqa: E731
+            action = lambda rdd: record(self.now_time(), rdd)      # noqa: E731
         elif sig == 5:
             def action(t, rdd=None):
                 record(t, rdd)
@@ -420,7 +441,7 @@ class _Run:
         try:
             sc = pysparkling.Context()
             with VirtualClock() as vc:
-                ssc = StreamingContext(sc, 1.0)
+                ssc = StreamingContext(sc, self.clock[0] / 10.0 if self.clock else 1.0)
                 hist = list(self.hist)
                 if not any(len(e) == 1 for e in hist):
                     hist.insert(0, (len(self.prog),))
@@ -449,7 +470,7 @@ class _Run:
                                 _write(self.dirs[h], name, lines)
                     self.events = []
                     if len(entry) == 2:
-                        vc.fire(float(t))
+                        vc.fire(self.ftime[t] if self.clock else float(t))
                     else:
                         # the harness walks the nodes itself, in the order the case prescribes
                         n = len(ssc._dstreams)
@@ -461,7 +482,7 @@ class _Run:
                         o = None if r is None else (isinstance(r, EmptyRDD), r.getNumPartitions(),
                                                     (exact_contents if i in self.exact else canon_contents)(r.collect()))
                         ct = d._current_time
-                        states.append((int(ct) if ct == int(ct) else ct, o))
+                        states.append((self.tick_of(ct), o))
                     layouts = []
                     for h, call in enumerate(self.prog[:pos]):
                         if call[0] == REPARTITION:
@@ -583,7 +604,7 @@ def ref_op(call, ins, t):
 
 
 def oracle(case, result):
-    prog, hist = case
+    prog, hist = case[0], case[1]
     if any(len(e) == 3 for e in hist):
         return None   # harness-driven stepping order: model tie only, the property is about the callback
     if any(c[0] == TRANSFORM and c[2] == 6 for c in prog):
@@ -1221,8 +1242,25 @@ def gen_order_case(rng):
     return (prog, out)
 
 
+def clock_cases():
+    """Tick times on the batch grid of durations that are no binary fractions, accumulated in floating point
+    (0.1 + 0.1 + ... gives 0.7999999999999999, 0.9999999999999999 ...), from three starting times; every tick has a
+    strictly larger time than the one before and must step everything once."""
+    cases = []
+    n = 12
+    qa = (QUEUE, [[j, j + 1] for j in range(n)], True, None)
+    qb = (QUEUE, [[(j % 3, j)] for j in range(n)] , True, [(0, 0)])
+    prog = [qa, qb, (MAP, 0, 1), (UNION, 0, 2), (COUNT, 3), (MAPVALUES, 1, 1), (COGROUPED, 1, 5, 1, None), (REDUCEBYKEY, 6 - 1, 0),
+            (FOREACH, 3), (FOREACH, 4), (FOREACH, 6), (FOREACH, 0, 0, 1)]
+    for tenths in (1, 3, 7):
+        for start in (0, 7, 1000):
+            cases.append((prog, [(k, []) for k in range(1, n + 1)], (tenths, start)))
+            cases.append((prog[:9], [(9,)] + [(k, []) for k in range(1, 6)] + [(0,)] + [(k, []) for k in range(6, n + 3)], (tenths, start)))
+    return cases
+
+
 def generate(rng, tier):
-    cases = list(_corpus())
+    cases = clock_cases() + list(_corpus())
     cases += systematic()
     cases += systematic_kinds()
     n_rand, n_file = (600, 100) if tier == 'quick' else (8000, 1200)
@@ -1252,7 +1290,7 @@ def _tuplify(c):
 
 
 def kind(case):
-    prog, hist = case
+    prog, hist = case[0], case[1]
     if any(len(e) == 3 for e in hist):
         return 'order'
     if any(len(e) == 1 for e in hist):
@@ -1278,7 +1316,7 @@ def nontrivial(case, result):
 
 
 def shrink_candidates(case):
-    prog, hist = case
+    prog, hist = case[0], case[1]
     # fewer ticks
     for i in range(len(hist)):
         yield (prog, hist[:i] + hist[i + 1:])
